@@ -91,11 +91,12 @@ type State struct {
 	defers []*deferred
 	u      *Unit
 	noName bool // pure mode: terms must stay closed
+	gdirty   bool        // a call that may assign any package variable has run on this path
 	symOrder [][2]string // gen kind sym: heaps touched, in first-use order
 }
 
 func (s *State) Clone() *State {
-	n := &State{cells: make(map[interface{}]Value, len(s.cells)), heaps: make(map[string]Term, len(s.heaps)), gen: s.gen, alloc: s.alloc, u: s.u, noName: s.noName}
+	n := &State{cells: make(map[interface{}]Value, len(s.cells)), heaps: make(map[string]Term, len(s.heaps)), gen: s.gen, alloc: s.alloc, u: s.u, noName: s.noName, gdirty: s.gdirty}
 	for k, v := range s.cells {
 		n.cells[k] = v
 	}
@@ -243,7 +244,6 @@ type Unit struct {
 	hintTags    map[string]string // property tag -> flag constant enabling the hints of that tag
 	sortSites   []*SortSite
 	qid         int
-	globalEpoch int
 	closures    []*regClosure
 	boxed       map[string]boxedVal // interface terms built by MakeInterface in this unit: concrete type and value
 	Fn          *ssa.Function
